@@ -10,15 +10,15 @@ type Event struct {
 }
 
 func (ex *Exec) emit(st *State, e Event) {
-	if !ex.traceMode {
+	if !st.traceOn {
 		return
 	}
-	e.Thr = ex.curThread
+	e.Thr = st.thread
 	st.events = append(st.events, e)
 }
 
 func (ex *Exec) emitAccess(st *State, p PtrV, write bool) {
-	if !ex.traceMode || !ex.sharedObjs[p.obj] {
+	if !st.traceOn || !ex.sharedObjs[p.obj] {
 		return
 	}
 	k := "Read"
@@ -29,7 +29,7 @@ func (ex *Exec) emitAccess(st *State, p PtrV, write bool) {
 }
 
 func (ex *Exec) emitObj(st *State, obj int, write bool) {
-	if !ex.traceMode || !ex.sharedObjs[obj] {
+	if !st.traceOn || !ex.sharedObjs[obj] {
 		return
 	}
 	k := "Read"
@@ -40,7 +40,7 @@ func (ex *Exec) emitObj(st *State, obj int, write bool) {
 }
 
 func (ex *Exec) emitMap(st *State, obj int, kind string) {
-	if !ex.traceMode {
+	if !st.traceOn {
 		return
 	}
 	k := map[string]string{"read": "MapRead", "write": "MapWrite", "iter": "MapIter", "len": "MapLen"}[kind]
@@ -48,14 +48,14 @@ func (ex *Exec) emitMap(st *State, obj int, kind string) {
 }
 
 func (ex *Exec) emitLock(st *State, p PtrV, kind string) {
-	if !ex.traceMode {
+	if !st.traceOn {
 		return
 	}
 	ex.emit(st, Event{Kind: kind, Obj: p.obj, Path: pathString(p.path)})
 }
 
 func (ex *Exec) emitAtomic(st *State, p PtrV) {
-	if !ex.traceMode {
+	if !st.traceOn {
 		return
 	}
 	ex.emit(st, Event{Kind: "Atomic", Obj: p.obj, Path: pathString(p.path)})
